@@ -215,4 +215,14 @@ def r5_options_during_skip(ctx):
         o["rule"] = "R5"
 
 
-RULES = [("R1", r1_table), ("R2", r2_compare), ("R3", r3_push), ("R5", r5_options_during_skip)]
+def r6_read_text_goes_through_skip(ctx):
+    """read_text must consume the element through read_to_end (which pops the open-element stack through emit_end): the
+    slice implementation's shape (C12 R3) is re-evaluated here, so a shortcut that leaves the stack untouched fires."""
+    import c12
+    n0 = len(ctx.obs)
+    c12.r3_read_text(ctx)
+    for o in ctx.obs[n0:]:
+        o["site"] = "read_text:" + o["site"]
+        o["rule"] = "R6"
+
+RULES = [("R1", r1_table), ("R2", r2_compare), ("R3", r3_push), ("R5", r5_options_during_skip), ("R6", r6_read_text_goes_through_skip)]
